@@ -574,7 +574,9 @@ func main() {
 					buf[i] = 0xff
 				}
 			}
-			st := libaudit.AuditStatus{Mask: 0xdeadbeef, Enabled: 7, Failure: 7, PID: 7, RateLimit: 7, BacklogLimit: 7, Lost: 7, Backlog: 7, FeatureBitmap: 7, BacklogWaitTime: 7, BacklogWaitTimeActual: 7}
+			// a receiver that was used before: every byte set, so that anything the decoder leaves alone shows
+			const ff = 0xffffffff
+			st := libaudit.AuditStatus{Mask: ff, Enabled: ff, Failure: ff, PID: ff, RateLimit: ff, BacklogLimit: ff, Lost: ff, Backlog: ff, FeatureBitmap: ff, BacklogWaitTime: ff, BacklogWaitTimeActual: ff}
 			err := st.FromWireFormat(buf)
 			res := "None"
 			if err == nil {
